@@ -25,6 +25,10 @@ func runC11(c *hc.Ctx) error {
 	if err != nil {
 		return err
 	}
+	if len(c.Sum.Violations) > 0 && !c.Search {
+		c.Sum.Search = "race search skipped: the plain runs already produced failing inputs"
+		return nil
+	}
 	raceSearch(c, m, scs)
 	return nil
 }
@@ -56,7 +60,7 @@ func raceSearch(c *hc.Ctx, m mode, scs []Scenario) {
 	}
 	logPrefix := filepath.Join(c.Out, "race_report")
 	t1 := time.Now()
-	oc, err := runChildren(bin, c.Out, "race", sub, 60, []string{"GORACE=halt_on_error=0 exitcode=0 log_path=" + logPrefix})
+	oc, err := runChildren(bin, c.Out, "race", sub, 40, []string{"GORACE=halt_on_error=0 exitcode=0 log_path=" + logPrefix})
 	if err != nil {
 		c.Sum.Search = "race run failed: " + err.Error()
 		c.Count("race detector: run failed")
